@@ -8,6 +8,10 @@ open UpfVerif UpfVerif.Driver
 def evalT (fn : String) (args : List String) (impl : String) : Option Verdict :=
   match fn with
   | "gtpu.encode" => evalGtpu args impl
+  | "mal.send" =>
+    some { model := "alive",
+           propFails := if impl == "alive" then [] else
+             [s!"C07 the UPF did not survive this datagram ({impl}): no Heartbeat Response afterwards"] }
   | "rx.retention" =>
     match args with
     | [t, n] =>
